@@ -76,6 +76,9 @@ static void STRF(prep_insert,
 
     if (len > 0) {
         const size_t size = STRF(size, s);
+        if (len > SIZE_MAX - size) {
+            abort();
+        }
         STRF(__resize, s, size + len);
         memmove(STRF(__at, s, pos + len),
                 STRF(__at, s, pos),
